@@ -1100,6 +1100,28 @@ func (e *errEngine) evalObj1(v ssa.Value, cx *evalCtx, depth int) map[ocl]bool {
 		return e.evalObj(x.X, cx, depth+1)
 	case *ssa.ChangeInterface:
 		return e.evalObj(x.X, cx, depth+1)
+	case *ssa.Slice:
+		// a[lo:hi] of an array (through its address) is a non-nil slice, also when it is empty:
+		// `[]T{}`; a slice of a slice is nil only when the operand is
+		if pt, ok := x.X.Type().Underlying().(*types.Pointer); ok {
+			if _, ok := pt.Elem().Underlying().(*types.Array); ok {
+				return one(oNon)
+			}
+		}
+		if _, ok := x.X.Type().Underlying().(*types.Slice); ok {
+			out := map[ocl]bool{}
+			for o := range e.evalObj(x.X, cx, depth+1) {
+				if o == oNon {
+					out[oNon] = true
+				} else {
+					out[oDyn] = true
+				}
+			}
+			if len(out) > 0 {
+				return out
+			}
+		}
+		return one(oDyn)
 	case *ssa.Extract:
 		if c, ok := x.Tuple.(*ssa.Call); ok && x.Index == 0 {
 			if dc, ok := cx.caseOf[c]; ok {
@@ -1167,8 +1189,64 @@ func (e *errEngine) evalErr(v ssa.Value, cx *evalCtx, depth int) map[ecl]bool {
 	cx.busyV[v] = true
 	m := e.evalErr1(v, cx, depth)
 	delete(cx.busyV, v)
+	m = e.refineByTest(v, m, cx)
 	cx.memoE[v] = m
 	return m
+}
+
+// refineByTest: the program point under evaluation is reached only over the
+// non-nil (or only over the nil) edge of a branch on this very SSA value — a
+// remembered error tested after the loop that may have set it, `if firstErr != nil
+// { return nil, firstErr }`.  The value has one definition, which dominates the
+// test, and the edge dominates the point, so the test saw the value the point
+// sees: the other classes are dropped.  An empty result means that the point is
+// not reached with this value under the outcome being evaluated.
+func (e *errEngine) refineByTest(v ssa.Value, m map[ecl]bool, cx *evalCtx) map[ecl]bool {
+	if cx.ret == nil || cx.ret.Block() == nil || v.Referrers() == nil {
+		return m
+	}
+	if _, isConst := v.(*ssa.Const); isConst {
+		return m
+	}
+	state := "" // "non" | "nil"
+	for _, ref := range *v.Referrers() {
+		bo, ok := ref.(*ssa.BinOp)
+		if !ok || (bo.Op != token.EQL && bo.Op != token.NEQ) || !(isNilConst(bo.X) || isNilConst(bo.Y)) || bo.Referrers() == nil {
+			continue
+		}
+		for _, r2 := range *bo.Referrers() {
+			ifi, ok := r2.(*ssa.If)
+			if !ok || len(ifi.Block().Succs) != 2 || ifi.Block().Succs[0] == ifi.Block().Succs[1] {
+				continue
+			}
+			nonEdge := 0
+			if bo.Op == token.EQL {
+				nonEdge = 1
+			}
+			if edgeDominates(ifi.Block(), nonEdge, cx.ret.Block()) {
+				state = "non"
+			} else if edgeDominates(ifi.Block(), 1-nonEdge, cx.ret.Block()) {
+				state = "nil"
+			}
+		}
+	}
+	if state == "" {
+		return m
+	}
+	out := map[ecl]bool{}
+	for c := range m {
+		switch {
+		case c == eTop:
+			if state == "nil" {
+				out[eNil] = true
+			} else {
+				out[eTop] = true
+			}
+		case (c == eNil) == (state == "nil"):
+			out[c] = true
+		}
+	}
+	return out
 }
 
 func (e *errEngine) evalErr1(v ssa.Value, cx *evalCtx, depth int) map[ecl]bool {
